@@ -278,6 +278,14 @@ def resolve_iterable(eng: Any, st: State, v: Any, node: Any, ctx: Ctx):
                     else:
                         yield from resolve_iterable(eng, st1, r, node, ctx)
                 return
+        mdl = eng.reg.models.get(o.kind)
+        if mdl is not None and hasattr(mdl, "iter") and o.kind not in ("absiter", "list"):
+            for st1, r in mdl.iter(eng, st, v, node, ctx):
+                if isinstance(r, Raised):
+                    yield st1, r
+                else:
+                    yield from resolve_iterable(eng, st1, r, node, ctx)
+            return
         if o.kind == "gen":
             fi = o.get("fi")
             body = [b for b in fi.node.body if not (isinstance(b, ast.Expr) and isinstance(b.value, ast.Constant))]
